@@ -33,6 +33,7 @@ DECIDED = [
     "CACHE-2 the cache file of an included / terminology URL is named by a digest of the whole URL (two URLs never share a cache file)",
     "ID-2 (C11) new_id changes the id only: the clones merge adds keep the name unmerge looks them up by",
     "FIN-1 finalize visits every Section of the document and resolves through the public setters",
+    'EQ-1 (imported from C11) the == behind "cleaning restores the document" leaves out the id only',
 ]
 NOT_DECIDED = [
     "restoration law clean o finalize = identity",
